@@ -98,27 +98,15 @@ def sortAsc (l : List Nat) : List Nat := l.foldr insertAsc []
 /-- `RevocationRegistry::for_issued` (indices mirrored to tail positions `L+1-j`);
     `issued` ascending. First/last range checks as in the source. -/
 def forIssued (o : RingOps F) (γ : F) (m : OvfMode) (L : Nat) (issued : List Nat) : Outcome F :=
-  match issued.head? with
-  | some 0 => .err
-  | _ =>
-    match issued.getLast? with
-    | some last => if last > L then .err else
-        if Gen.forIssuedMirrors then
-          match mirror issued with
-          | .ok ms => .ok (accumIndexes o γ (sortAsc ms))
-          | .err => .err
-          | .panic => .panic
-        else .ok (accumIndexes o γ issued)
-    | none => .ok (accumIndexes o γ [])
+  if issued.head? == some 0 then .err            -- "Invalid revocation index, 0."
+  else if (issued.getLast?.map fun last => decide (last > L)).getD false then .err
+  else if Gen.forIssuedMirrors then
+    (mirror issued).map fun ms => accumIndexes o γ (sortAsc ms)
+  else .ok (accumIndexes o γ issued)
 where
   mirror : List Nat → Outcome (List Nat)
     | [] => .ok []
-    | j :: js =>
-      match getIndex m L j, mirror js with
-      | .ok k, .ok ks => .ok (k :: ks)
-      | .panic, _ => .panic
-      | _, .panic => .panic
-      | _, _ => .err
+    | j :: js => (getIndex m L j).bind fun k => (mirror js).map (k :: ·)
 
 /-! ## Accumulator updates -/
 
@@ -128,17 +116,10 @@ def updatePow (o : RingOps F) (γ : F) (m : OvfMode) (L : Nat) :
     List (Nat × Bool) → F → Outcome F
   | [], acc => .ok acc
   | (idx, remove) :: rest, acc =>
-    match guard Gen.updateAccGuard m L idx with
-    | .ok true => .err
-    | .ok false =>
-      match getIndex m L idx with
-      | .ok k =>
-        let t := indexPow o γ k
-        updatePow o γ m L rest (if remove then o.sub acc t else o.add acc t)
-      | .err => .err
-      | .panic => .panic
-    | .err => .err
-    | .panic => .panic
+    (guard Gen.updateAccGuard m L idx).guardThen fun _ =>
+    (getIndex m L idx).bind fun k =>
+      let t := indexPow o γ k
+      updatePow o γ m L rest (if remove then o.sub acc t else o.add acc t)
 
 structure Delta (F : Type) where
   prev : Option F
@@ -149,47 +130,63 @@ structure Delta (F : Type) where
 /-- `Issuer::revoke_credential` -/
 def revoke (o : RingOps F) (γ : F) (m : OvfMode) (L : Nat) (acc : F) (i : Nat) :
     Outcome (F × Delta F) :=
-  match updatePow o γ m L [(i, true)] o.zero with
-  | .ok p => let a := o.add acc p; .ok (a, ⟨some acc, a, [], [i]⟩)
-  | .err => .err
-  | .panic => .panic
+  (updatePow o γ m L [(i, true)] o.zero).map fun p =>
+    let a := o.add acc p; (a, ⟨some acc, a, [], [i]⟩)
 
 /-- `Issuer::unrevoke_credential` -/
 def unrevoke (o : RingOps F) (γ : F) (m : OvfMode) (L : Nat) (acc : F) (i : Nat) :
     Outcome (F × Delta F) :=
-  match updatePow o γ m L [(i, false)] o.zero with
-  | .ok p => let a := o.add acc p; .ok (a, ⟨some acc, a, [i], []⟩)
-  | .err => .err
-  | .panic => .panic
+  (updatePow o γ m L [(i, false)] o.zero).map fun p =>
+    let a := o.add acc p; (a, ⟨some acc, a, [i], []⟩)
 
 /-- `Issuer::update_revocation_registry(issued, revoked)` (both BTreeSets, ascending) -/
 def update (o : RingOps F) (γ : F) (m : OvfMode) (L : Nat) (acc : F) (iss rev : List Nat) :
     Outcome (F × Delta F) :=
-  match updatePow o γ m L (iss.map (·, false) ++ rev.map (·, true)) o.zero with
-  | .ok p => let a := o.add acc p; .ok (a, ⟨some acc, a, iss, rev⟩)
-  | .err => .err
-  | .panic => .panic
+  (updatePow o γ m L (iss.map (·, false) ++ rev.map (·, true)) o.zero).map fun p =>
+    let a := o.add acc p; (a, ⟨some acc, a, iss, rev⟩)
 
 /-- registry part of `Issuer::_new_non_revocation_credential`:
     returns new accumulator, optional delta, issuer-side witness -/
 def issue (o : RingOps F) (γ : F) (m : OvfMode) (L : Nat) (byDefault : Bool) (acc : F) (i : Nat) :
     Outcome (F × Option (Delta F) × F) :=
-  match guard Gen.issueGuard m L i with
-  | .ok true => .err
-  | .ok false =>
-    match getIndex m L i with
-    | .ok k =>
-      let tail := indexPow o γ k
-      let γi := indexPow o γ i
-      if byDefault then
-        .ok (acc, none, o.mul (o.sub acc tail) γi)
-      else
-        let a := o.add acc tail
-        .ok (a, some ⟨some acc, a, [i], []⟩, o.mul acc γi)
-    | .err => .err
-    | .panic => .panic
-  | .err => .err
-  | .panic => .panic
+  (guard Gen.issueGuard m L i).guardThen fun _ =>
+  (getIndex m L i).bind fun k =>
+    let tail := indexPow o γ k
+    let γi := indexPow o γ i
+    if byDefault then
+      .ok (acc, none, o.mul (o.sub acc tail) γi)
+    else
+      let a := o.add acc tail
+      .ok (a, some ⟨some acc, a, [i], []⟩, o.mul acc γi)
+
+/-! ## Histories -/
+
+inductive Op where
+  | issue (i : Nat)
+  | revoke (i : Nat)
+  | unrevoke (i : Nat)
+  | update (iss rev : List Nat)
+deriving Repr
+
+structure StepOut (F : Type) where
+  acc : F
+  delta : Option (Delta F)
+  witness : Option F
+
+/-- one operation of the `Issuer` API on the registry -/
+def step (o : RingOps F) (γ : F) (m : OvfMode) (L : Nat) (byDefault : Bool) (acc : F) :
+    Op → Outcome (StepOut F)
+  | .issue i => (issue o γ m L byDefault acc i).map fun r => ⟨r.1, r.2.1, some r.2.2⟩
+  | .revoke i => (revoke o γ m L acc i).map fun r => ⟨r.1, some r.2, none⟩
+  | .unrevoke i => (unrevoke o γ m L acc i).map fun r => ⟨r.1, some r.2, none⟩
+  | .update iss rev => (update o γ m L acc iss rev).map fun r => ⟨r.1, some r.2, none⟩
+
+/-- a history in which every operation is accepted -/
+def run (o : RingOps F) (γ : F) (m : OvfMode) (L : Nat) (byDefault : Bool) :
+    F → List Op → Outcome F
+  | acc, [] => .ok acc
+  | acc, op :: ops =>
+    (step o γ m L byDefault acc op).bind fun s => run o γ m L byDefault s.acc ops
 
 /-! ## Delta merge, interpreted from `Gen.Merge` -/
 
@@ -238,19 +235,10 @@ def witnessNewLoop (o : RingOps F) (γ : F) (m : OvfMode) (L i : Nat) :
     List Nat → F → Outcome F
   | [], ω => .ok ω
   | j :: js, ω =>
-    match guard Gen.witnessNewLoopGuard m L j with
-    | .ok true => .err
-    | .ok false =>
-      match witnessIndexNew m L j i with
-      | .ok k =>
-        match tailAt o γ L k with
-        | .ok t => witnessNewLoop o γ m L i js (o.add ω t)
-        | .err => .err
-        | .panic => .panic
-      | .err => .err
-      | .panic => .panic
-    | .err => .err
-    | .panic => .panic
+    (guard Gen.witnessNewLoopGuard m L j).guardThen fun _ =>
+    (witnessIndexNew m L j i).bind fun k =>
+    (tailAt o γ L k).bind fun t =>
+      witnessNewLoop o γ m L i js (o.add ω t)
 
 /-- `Witness::issued_indices` -/
 def issuedIndices (L : Nat) (byDefault : Bool) (d : Delta F) : List Nat :=
@@ -260,12 +248,8 @@ def issuedIndices (L : Nat) (byDefault : Bool) (d : Delta F) : List Nat :=
 /-- `Witness::new(rev_idx, max_cred_num, issuance_by_default, delta, tails)` -/
 def witnessNew (o : RingOps F) (γ : F) (m : OvfMode) (L : Nat) (byDefault : Bool) (i : Nat)
     (d : Delta F) : Outcome F :=
-  match guard Gen.witnessNewGuard m L i with
-  | .ok true => .err
-  | .ok false =>
+  (guard Gen.witnessNewGuard m L i).guardThen fun _ =>
     witnessNewLoop o γ m L i ((issuedIndices L byDefault d).filter (· != i)) o.zero
-  | .err => .err
-  | .panic => .panic
 
 /-- loop of `Witness::update` over `(j, add?)` -/
 def witnessUpdateLoop (o : RingOps F) (γ : F) (m : OvfMode) (L i : Nat) :
@@ -273,19 +257,10 @@ def witnessUpdateLoop (o : RingOps F) (γ : F) (m : OvfMode) (L i : Nat) :
   | [], ω => .ok ω
   | (j, add) :: js, ω =>
     if i == j then witnessUpdateLoop o γ m L i js ω else
-    match guard Gen.witnessUpdateLoopGuard m L j with
-    | .ok true => .err
-    | .ok false =>
-      match witnessIndexUpdate m L j i with
-      | .ok k =>
-        match tailAt o γ L k with
-        | .ok t => witnessUpdateLoop o γ m L i js (if add then o.add ω t else o.sub ω t)
-        | .err => .err
-        | .panic => .panic
-      | .err => .err
-      | .panic => .panic
-    | .err => .err
-    | .panic => .panic
+    (guard Gen.witnessUpdateLoopGuard m L j).guardThen fun _ =>
+    (witnessIndexUpdate m L j i).bind fun k =>
+    (tailAt o γ L k).bind fun t =>
+      witnessUpdateLoop o γ m L i js (if add then o.add ω t else o.sub ω t)
 
 /-- the `BTreeMap<u32,bool>` built by `Witness::update`: issued inserted first (true), then
     revoked (false) overriding -/
@@ -297,11 +272,8 @@ def updateEntries (d : Delta F) : List (Nat × Bool) :=
 /-- `Witness::update(rev_idx, max_cred_num, delta, tails)` -/
 def witnessUpdate (o : RingOps F) (γ : F) (m : OvfMode) (L i : Nat) (ω : F) (d : Delta F) :
     Outcome F :=
-  match guard Gen.witnessUpdateGuard m L i with
-  | .ok true => .err
-  | .ok false => witnessUpdateLoop o γ m L i (updateEntries d) ω
-  | .err => .err
-  | .panic => .panic
+  (guard Gen.witnessUpdateGuard m L i).guardThen fun _ =>
+    witnessUpdateLoop o γ m L i (updateEntries d) ω
 
 /-- `RevocationTailsGenerator` -/
 structure TailsGen (F : Type) where
@@ -321,12 +293,9 @@ def TailsGen.tryNext (o : RingOps F) (γ : F) (m : OvfMode) (g : TailsGen F) :
   let res := match g.cur with
     | some c => o.mul c γ
     | none => o.one
-  match suppressedIndex m g.size with
-  | .ok s =>
+  (suppressedIndex m g.size).map fun s =>
     let out := if g.idx == s then o.one else res
-    .ok (⟨g.size, g.idx + 1, some res⟩, some out)
-  | .err => .err
-  | .panic => .panic
+    (⟨g.size, g.idx + 1, some res⟩, some out)
 
 /-- drain the generator (fuel = number of calls) -/
 def TailsGen.drain (o : RingOps F) (γ : F) (m : OvfMode) :
